@@ -1021,6 +1021,22 @@ class C23(core.Check):
             return 'host exception escaped: %s' % res['host']
         if res['pre'] is None or res['post'] is None:
             return None
+        # the hypotheses of the CHAIN theorems (wf, bufs_ok) on the real state the command starts from
+        pre = res['pre']
+        names = [bytes(bytearray(n)) for n, _ in pre['sc_vars']]
+        anames = [bytes(bytearray(n)) for n, _ in pre['ar_dims']]
+        if len(set(names)) != len(names) or len(set(anames)) != len(anames):
+            return 'duplicate names in a variable dictionary before %s' % case['op']['text']
+        bufs = dict((bytes(bytearray(n)), b) for n, b in pre['ar_bufs'])
+        for n, dd in pre['ar_dims']:
+            size = {37: 2, 33: 4, 35: 8, 36: 3}[n[-1]]
+            base = pre['base']
+            count = 1
+            for x in dd:
+                count *= (x + 1 - (base or 0))
+            if (not dd or base is None or min(dd) < base or base < 0
+                    or len(bufs.get(bytes(bytearray(n)), [])) != count * size):
+                return 'array %r breaks the allocation invariant before %s' % (bytes(bytearray(n)), case['op']['text'])
         if not res['post']['allow']:
             return 'garbage collection left switched off after %s' % case['op']['text']
         for k, v in res['probes']:
